@@ -265,6 +265,10 @@ func Guard(f func() Verdict) (v Verdict) {
 	return f()
 }
 
+// PanicStack renders the stack of a panic being recovered (call it inside the deferred function,
+// after recover() returned non-nil) in the deterministic short form used by Guard.
+func PanicStack() string { return trimStack(debug.Stack()) }
+
 // trimStack renders a stack deterministically: only function names and file:line of
 // frames below the panic, no addresses or goroutine ids (rapid shrinks a failure only
 // when the re-run reports the same message).
